@@ -82,6 +82,18 @@ def run_property(prop, tier, root, write=True):
     ctx = Context(root, prop, tier)
     mod.run(ctx)
     verify_controls(ctx, mod)
+    if tier == 'thorough' and write and not os.environ.get('PETLSA_NO_VALIDATION'):
+        # checker validation on scratch copies (self-test mutants + stored seeded changes): reported, not gated
+        try:
+            from .selftest import checker_validation
+            cv = checker_validation(prop, root)
+            ctx.report.extra['checker_validation'] = cv
+            ctx.report.note('checker validation on scratch copies of the current tree: mutants %s, seeded changes %s'
+                            % (cv['mutants'], cv['seeds']))
+            print('%s thorough: checker validation on scratch copies: mutants %s; seeded changes %s' % (
+                prop, cv['mutants'], cv['seeds']))
+        except Exception as e:      # never let the validation harness decide the verdict
+            ctx.report.note('checker validation skipped: %s' % e)
     seed = int(os.environ.get('VERIF_SEED', '0') or 0)
     return ctx.report.finish(seed=seed, write=write)
 
